@@ -167,6 +167,45 @@ func refCells(s string) (bool, int) {
 	return true, vis
 }
 
+// refNsx: a cell-language string with its blank cells (white space, newlines) removed.
+func refNsx(s string) (string, bool) {
+	out := ""
+	for len(s) > 0 {
+		if s[0] == '\n' {
+			s = s[1:]
+			continue
+		}
+		start := s
+		styled := false
+		for strings.HasPrefix(s, "\x1b[") {
+			i := strings.IndexByte(s, 'm')
+			if i < 0 || !refSgr(s[2:i]) {
+				return "", false
+			}
+			s = s[i+1:]
+			styled = true
+		}
+		if len(s) == 0 {
+			return "", false
+		}
+		r, n := utf8.DecodeRuneInString(s)
+		if refIsControl(r) {
+			return "", false
+		}
+		s = s[n:]
+		if styled {
+			if !strings.HasPrefix(s, "\x1b[0m") {
+				return "", false
+			}
+			s = s[4:]
+		}
+		if !refIsSpace(r) {
+			out += start[:len(start)-len(s)]
+		}
+	}
+	return out, true
+}
+
 func strLitFacts(name, lit string) []string {
 	var fs []string
 	fs = append(fs, fmt.Sprintf("(= (blen %s) %d)", name, len(lit)))
